@@ -63,6 +63,10 @@ CHECKS = {
    technique="runtime monitoring: client-boundary history recorder + porcupine linearizability checker against a sequential specification (the reference model), partitioned by tree; exhaustive small sequential histories, random histories, multi-goroutine histories with hand-off on the race-detector build",
    text="Every sequential call history up to length 8 (quick) / 9 (thorough) over NewRoot/Add/operation on up to two live trees (229k / 2M histories, executed back to back in one process so package-level state left by earlier histories is part of the exploration), random histories of 20-200 calls, and histories split across 2-8 goroutines with trees handed over through a channel and concurrent independent From-Markdown calls are recorded and checked per tree with porcupine: every operation's result (text with 3 branch tuples, walk, iterator, JSON, dry-run, mkdir delta, verify) must be the model's result for the tree as built so far, and Add must report new/existing as the model says. The concurrent workload also runs under the race detector.",
    note="No two goroutines touch the same tree at the same time. Only client-visible results are judged (no internal invariant such as index uniqueness)."),
+ "C11": dict(level="fault_enumeration", design="DESIGN.md §4 C11",
+   technique="runtime monitoring with fault and cancellation injection: goroutine deadlock/leak monitor (quiescence on runtime.Stack states), cancellation oracle, event-triggered cancellation and seeded delays through the verifPoint hooks, Go race detector on a second build of the same workload",
+   text="Massive-mode calls of every operation (incl. the four From-Root ones) are run with 0-30 failing blocks at each pipeline stage, failing readers/writers/callbacks, cancellation after every input offset and at every hook event, pre-cancelled and deadline contexts, under seeded GOMAXPROCS and delay profiles (13k executions quick). Each call must return (deadlock monitor), leave no gtree goroutine behind (leak monitor), and under cancellation return nil only with complete output and otherwise the context's error; the same workload on the -race build must produce no DATA RACE report.",
+   note="Bounded time = no deadlock and return before a 60 s watchdog (firing = inconclusive). Goroutines are attributed by stack frames, one call at a time. A clean race run covers only executed accesses."),
 }
 PENDING = {}
 ids = [json.loads(l)["id"] for l in open("/verif/properties.jsonl")]
